@@ -181,6 +181,32 @@ CLAIMED = {
          "found by this check (integer seeds correlated the two parts) was repaired (bbcb31d)."),
    ref="5 C07",
    note="Convergence to the analytic structure function under grid refinement and 'closer at large separations' only tested numerically; Reals axioms; probability via second moments."),
+ "C13": dict(
+   technique="Coq proof (trigonometric sums via the DFT library, matrix algebra, list reasoning; eigh/argsort as contracts) over a hand model + stage-wise vm_compute correspondence",
+   text=("Machine-checked proofs, for every radial resolution and mode count, that piston_orth is an orthogonal matrix whose first nr-1 columns "
+         "sum to zero; that the azimuthal rows are discretely orthogonal on the uniform grid as long as frequencies do not alias (bound shown "
+         "tight); that the selection loop returns exactly nfunc modes, pairs every order >= 1 eigenvalue with one cosine and one sine row on "
+         "consecutive positions whatever their parity, keeps the variances in non-increasing order with equal variances inside a pair; that the "
+         "modes gkl_sfi builds from orthonormal eigenvectors are orthonormal over the pupil on the native polar grid and (all but the constant "
+         "one) have zero mean; that the kernel's sampled structure function is even so its DFT is real and each order's matrix symmetric, and "
+         "that eigenvectors diagonalise their order; that the returned pupil is exactly the annulus indicator, the masked rendering vanishes "
+         "outside it and the resampling is a convex combination of four polar samples. Every stage of gkl_basis/make_kl (radii, kernel planes, "
+         "piston filter, the matrices handed to eigh, stopping rule, selection from the recorded argsort, radial functions, azimuthal table, "
+         "outer products, pupil, bilinear rendering for even and odd sizes) is compared with the model, twice per configuration in one process."),
+   ref="9.2.1",
+   note="eigh/argsort results are inputs (contracts as premises, shown satisfiable); positivity of the variances, tip/tilt first and the resampling accuracy are only tested numerically; the full double-sum diagonalisation identity is tested numerically to 1e-8 and proved per order from the eigen-equation."),
+ "C18": dict(
+   technique="Coq proof (list/sum algebra over R, carrier-generic index bounds, binary64 regression witnesses) over a hand model + bit-exact / recorded-restart vm_compute correspondence",
+   text=("Machine-checked proofs that equivalent_layers returns exactly L layers (any carrier), assigns every input layer to a slab 1..L (upper "
+         "bound for any carrier, hence for the rounded execution), conserves the total Cn2 exactly for every profile and L >= 1, has non-negative "
+         "strengths and conserves the 5/3 height and wind moments for non-negative strengths (shown necessary); that optimal grouping's splits "
+         "always describe a partition into non-empty consecutive groups preserved by every move of the local search, that it returns exactly L "
+         "layers, input heights in strictly increasing order, non-negative strengths summing to the input total, with a cost never above the "
+         "equal split whatever the random restarts and iteration count; the L = 1 case returns nothing (refuted clause, known finding). "
+         "equivalent_layers is compared bit-exactly with the model (incl. the edge-sensitive grids), optimal_grouping with the restarts recorded "
+         "from numpy.random.choice. A defect found by this check (top layer dropped when arange produced L+1 edges) was repaired (f325263)."),
+   ref="9.2.2",
+   note="GCTM: only shape/non-negativity/moment accuracy tested numerically (optimiser convergence is not aotools' contract); empty-slab NaN heights and L = 1 are known findings."),
 }
 NOT_YET = {}
 ALL = ["C%02d" % i for i in range(1, 21)]
